@@ -8,6 +8,7 @@ from .. import refmodel as R
 from .. import spec as S
 from . import common as C
 from . import c03
+from . import extreme as X
 
 MONITORS = ("math", "route", "acc")
 LEVEL = "exploration"
@@ -28,7 +29,43 @@ def paths_to(s, var):
     return sum(paths_to(c, var) for c in S.children(s))
 
 
+def make_extreme(rng):
+    for _ in range(50):
+        t, p = X.gen_flat(rng, kind="Multiply")
+        if t is None:
+            return None
+        vs = sorted(S.variables(t))
+        good = [v for v in vs if X.prefix_safe_partial(t, p, v) and X.in_range(X.exact_partial(t, p, v))]
+        if good:
+            return {"kind": "extreme_product", "family": "extreme_product", "spec": S.to_json(t), "points": [S.point_to_json(p)], "vars": good, "mode": "tree"}
+    return None
+
+
+def check_extreme(ctx, case, route_names=("located", "diff_late_at_component")):
+    """Gradient of a flat product at huge-but-finite coordinates, judged only for components whose straightforward
+    product rule stays in range (exact analysis); the exact partial is representable, so it must come back to 1e-12."""
+    s = S.from_json(case["spec"])
+    for pj in case["points"]:
+        p = S.point_from_json(pj)
+        for var in case["vars"]:
+            exact = X.exact_partial(s, p, var)
+            for rn in route_names:
+                out = M.Route(rn, S.build(s), var).query(dict(p))
+                ctx.evaluation()
+                ctx.count("extreme_product_components")
+                ctx.nontrivial(case["spec"], pj, var)
+                what = f"{rn}: d/d{var} of {S.show(s)} at {S.show_point(p)}"
+                if out.kind != "num":
+                    ctx.violation("no_gradient_on_domain", f"{what}: exact partial {float(exact)!r} is representable, library gave {out.brief()}")
+                elif not X.close(out.value, exact):
+                    ctx.violation("derivative_outside_enclosure", f"{what}: got {out.value!r}, exact partial {float(exact)!r}")
+
+
 def make_case(rng, tier):
+    if rng.random() < 0.04:
+        c = make_extreme(rng)
+        if c is not None:
+            return c
     r = rng.random()
     hi = 30 if tier == "quick" else 60
     vals = G.POINT_VALUES
@@ -78,6 +115,8 @@ def _gradient_objects(e, p):
 
 
 def check_case(ctx, case):
+    if case.get("kind") == "extreme_product":
+        return check_extreme(ctx, case)
     import smoothmath.expression as E
     s = S.from_json(case["spec"])
     mode = case.get("mode", "dag")
